@@ -136,7 +136,8 @@ impl GitVcs {
 
     /// Get all commits from HEAD in topological order (only commits with tags)
     fn get_commits_in_topo_order(&self) -> Result<Vec<String>> {
-        let commits_output = self.run_git_command(&["rev-list", "--topo-order", "HEAD"])?;
+        // "--": HEAD is a revision even if the work tree has a file called HEAD
+        let commits_output = self.run_git_command(&["rev-list", "--topo-order", "HEAD", "--"])?;
         let commits_output_only_with_tags =
             self.run_git_command(&["log", "--tags", "--no-walk", "--format=%H"])?;
 
